@@ -39,10 +39,18 @@ def _v2(records):
     return K.v2_file([(0x1d3, 7, b'procA')], 2, records)
 
 
-def _v3(records, sym=True):
+def _tagged_filler():
+    """stackshot bytes that happen to contain a thread-map tag with a small length and an events tag (what a reader that
+    gave up looking for the end-of-stackshot marker would mistake for the real sections)"""
+    fake_map = K.threadmap_entry(0x77, 9, b'ghost')
+    fake_ev = K.pack_rec(5, [1, 2, 3, 4], 0x77, 0x40c0050)
+    return b'xy' + V.TAG_THREADMAP + K.to_le(len(fake_map), 8) + fake_map + V.TAG_EVENTS + K.to_le(8 + 64, 8) + bytes(8) + fake_ev + b'zz'
+
+
+def _v3(records, sym=True, filler=b'abc'):
     return V.v3_file([(0x1d3, 7, b'procA')], [[records[0]], [records[1]]],
                      [('codes', '0x40c0004\tBSC_exit\n'), ('strings', V.sample_strings()), ('logs', V.sample_logs())],
-                     filler=b'abc', between=bytes(8))
+                     filler=filler, between=bytes(8))
 
 
 def structures(tier):
@@ -56,6 +64,10 @@ def structures(tier):
     for k in range(n3 + 1):
         if tier == 'thorough' or k <= ev_end + 8 or k % 4 == 0 or k == n3:
             sts.append({'kind': 'v3', 'cut': k})
+    d3s = _v3([bytes(64), bytes(64)], filler=_tagged_filler())
+    f0, f1 = d3s.find(b'xy' + V.TAG_THREADMAP), d3s.find(V.STACKSHOT_END) + len(V.STACKSHOT_END)
+    for k in list(range(f0 - 4, f1 + 12, 1 if tier == 'thorough' else 2)) + [len(d3s)]:
+        sts.append({'kind': 'v3', 'cut': k, 'tagged': True})
     nt = 288 + 32 + 2 + 64 * 6
     base = 288 + 32 + 2
     cuts = set()
@@ -124,7 +136,7 @@ def run(ctx, st):
         recs = [ctx.bytes('rec%d' % i, 64) for i in range(2)]
         if kind == 'v2':
             ctx.assume(recs[0][0] != 0)
-        data = _v2(recs) if kind == 'v2' else _v3(recs)
+        data = _v2(recs) if kind == 'v2' else _v3(recs, filler=_tagged_filler() if st.get('tagged') else b'abc')
         full, ferr, fover = _events(ctx, data)
         L = 'C06/' + kind
         ctx.check(L + '/full-file-parses', ferr is None and not fover, repr(ferr))
